@@ -769,6 +769,12 @@ class Engine:
                 return V(STR, f_(recv.t, x.t))
         raise OutOfSubset(f'.join on {recv.ty}')
 
+    def meth_copy(self, recv, n, ctx, ev):
+        if isinstance(recv.ty, (TDict, TList, TSet)) and not n.args:
+            self.libs_used.add('LC-DEEPCOPY: deepcopy/copy return an equal value (value semantics; freshness is C08\'s frame claim)')
+            return recv
+        raise OutOfSubset(f'.copy() on {recv.ty}')
+
     def meth_keys(self, recv, n, ctx, ev):
         if isinstance(recv.ty, TDict) and not n.args:
             return V(TSet(recv.ty.k), recv.ty.has(recv.t))     # a dict's key view, as a set value
@@ -946,6 +952,9 @@ class Engine:
 
     def meth_isdigit(self, recv, n, ctx, ev):
         f = z3.Function('str_isdigit', z3.StringSort(), z3.BoolSort())
+        lit = z3.simplify(recv.t)
+        if z3.is_string_value(lit):
+            return mk_bool(lit.as_string().isdigit())      # a ground string: the interpreter's own answer (used by GROUND_FORALL checks)
         return V(BOOL, f(recv.t))
 
     # ---- non-mutating methods
@@ -961,6 +970,14 @@ class Engine:
                                          z3.ForAll([k], z3.Implies(z3.And(0 <= k, k < r),
                                                                    z3.Not(values_equal(list_at(recv, k), x)))))))
             self.libs_used.add('LC-INDEX: list.index returns the first position of the element')
+            return V(INT, r)
+        if recv.ty == STR and x.ty == STR and len(n.args) in (1, 2):
+            # str.index(sub[, start]): the first occurrence at or after start (0 <= start <= len), ValueError if there is none
+            start = to_int(ev.unwrap_opt(ev.ev(n.args[1], ctx), ctx)) if len(n.args) == 2 else z3.IntVal(0)
+            ln = z3.Length(recv.t)
+            st_ = z3.If(start < 0, z3.If(start + ln < 0, 0, start + ln), start)
+            r = z3.IndexOf(recv.t, x.t, st_)
+            ctx.exc('ValueError', z3.Or(r < 0, st_ > ln))
             return V(INT, r)
         raise OutOfSubset('.index')
 
